@@ -7,6 +7,7 @@ import (
 	"os"
 	"path/filepath"
 	"sort"
+	"strings"
 	"sync"
 	"time"
 )
@@ -32,6 +33,8 @@ type Run struct {
 	known        []string
 	inconclusive []string
 	exhaustive   bool
+	openFindings []knownFinding
+	reported     map[string]bool
 }
 
 // Violation is one refuting observation.
@@ -40,8 +43,36 @@ type Violation struct {
 	Replay string `json:"replay"`
 }
 
+// knownFinding is an "open" entry of known_findings.json: a genuine defect that is recorded rather than
+// repaired.  A violation whose description contains Match is reported as KNOWN-FINDING instead of VIOLATION.
+type knownFinding struct {
+	Property string `json:"property"`
+	Match    string `json:"match"`
+	What     string `json:"what"`
+}
+
+func loadKnown(property string) []knownFinding {
+	data, err := os.ReadFile(filepath.Join(Root(), "known_findings.json"))
+	if err != nil {
+		return nil
+	}
+	var f struct {
+		Open []knownFinding `json:"open"`
+	}
+	if json.Unmarshal(data, &f) != nil {
+		return nil
+	}
+	var out []knownFinding
+	for _, k := range f.Open {
+		if k.Property == property && k.Match != "" {
+			out = append(out, k)
+		}
+	}
+	return out
+}
+
 func New(property, tier string, seed int64, level string) *Run {
-	return &Run{Property: property, Tier: tier, Seed: seed, Level: level, start: time.Now(),
+	return &Run{openFindings: loadKnown(property), reported: map[string]bool{},Property: property, Tier: tier, Seed: seed, Level: level, start: time.Now(),
 		distinct: map[string]struct{}{}, counters: map[string]int{}, extra: map[string]any{}, maxSamples: 6}
 }
 
@@ -111,6 +142,18 @@ func (r *Run) NumViolations() int {
 // Violate records a violation, writes its replay file and prints the VIOLATION line.
 // Only the first 20 are written out in full.
 func (r *Run) Violate(what string, witness any) {
+	for _, k := range r.openFindings {
+		if strings.Contains(what, k.Match) {
+			r.mu.Lock()
+			first := !r.reported[k.Match]
+			r.reported[k.Match] = true
+			r.mu.Unlock()
+			if first {
+				r.Known(k.What + " (observed: " + what + ")")
+			}
+			return
+		}
+	}
 	r.mu.Lock()
 	n := len(r.violations)
 	r.mu.Unlock()
